@@ -8,6 +8,7 @@ package props
 // CodeBuilder (Val(fn) [Typ.. Index] args Call): accept/reject and the result Elem.Type must equal S.
 
 import (
+	"bytes"
 	"encoding/json"
 	"fmt"
 	"go/ast"
@@ -28,14 +29,19 @@ import (
 func init() { Registry["C07"] = runC07 }
 
 type infPoint struct {
-	Sig   int      `json:"sig"`
-	Expl  []string `json:"expl"`
-	Args  []string `json:"args"`
-	Ok    bool     `json:"ok"`
-	TArgs []string `json:"targs"`
+	Kind   string   `json:"kind"`
+	Ell    bool     `json:"ell"`
+	Target string   `json:"target"`
+	Real   string   `json:"real,omitempty"` // replay only: the realisation that failed ("xgox")
+	Sig    int      `json:"sig"`
+	Expl   []string `json:"expl"`
+	Args   []string `json:"args"`
+	Ok     bool     `json:"ok"`
+	TArgs  []string `json:"targs"`
 }
 
-var infNames = map[int]string{1: "Id", 2: "Eq", 3: "Sum", 4: "Map", 5: "Keys", 6: "Ptr", 7: "Sl", 8: "Two", 9: "Conv", 10: "Ai", 11: "App", 12: "Same", 13: "Fn", 14: "SlE"}
+var infFvNames = map[int]string{1: "ConvV", 2: "Same1", 3: "Map1", 4: "PairV", 5: "SumS"}
+var infNames = map[int]string{15: "Collect", 16: "Cast", 17: "Mk", 1: "Id", 2: "Eq", 3: "Sum", 4: "Map", 5: "Keys", 6: "Ptr", 7: "Sl", 8: "Two", 9: "Conv", 10: "Ai", 11: "App", 12: "Same", 13: "Fn", 14: "SlE"}
 
 const infFixture = `package ov
 
@@ -56,6 +62,23 @@ func App[T any](s []T, xs ...T) func(T)                  { return nil }
 func Same[T any](a, b T) func(T)                         { return nil }
 func Fn[T any](f func(T) T, x T) func(T)                 { return nil }
 func SlE[S ~[]E, E int | float64](s S, e E) func(S, E)   { return nil }
+func Collect[R, T any](xs ...T) func(R, T)               { return nil }
+func Cast[R, T any](x T) func(R, T)                      { return nil }
+func Mk[R any]() func(R)                                 { return nil }
+
+// the same three as type-as-parameter functions: XCollect(R, xs...), XCast(R, x), XMk(R)
+const XGoPackage = true
+
+func XGox_XCollect[R, T any](xs ...T) func(R, T) { return nil }
+func XGox_XCast[R, T any](x T) func(R, T)        { return nil }
+func XGox_XMk[R any]() func(R)                   { return nil }
+
+// generic functions used as values
+func ConvV[To, From any](src From) To           { var z To; return z }
+func Same1[T any](x T) T                        { return x }
+func Map1[T, U any](x T) U                      { var z U; return z }
+func PairV[K comparable, V any](k K, v V) V     { return v }
+func SumS[T int | float64](xs []T) T            { var z T; return z }
 `
 
 const infVars = "var vi int\nvar vf float64\nvar vs string\nvar vmy ov.MyInt\nvar vsl []int\nvar vmysl ov.MySl\nvar vslf []float64\nvar vm map[string]int\nvar vpi *int\nvar vfis func(int) string\nvar vfii func(int) int\n"
@@ -63,6 +86,13 @@ const infVars = "var vi int\nvar vf float64\nvar vs string\nvar vmy ov.MyInt\nva
 var infArgText = map[string]string{"c1": "1", "c15": "1.5", "cs": `"s"`, "nil": "nil"}
 
 func (p infPoint) text() string {
+	if p.Kind == "fv" {
+		ex := ""
+		if len(p.Expl) > 0 {
+			ex = "[" + strings.Join(p.Expl, ", ") + "]"
+		}
+		return fmt.Sprintf("%s(ov.%s%s)", p.Target, infFvNames[p.Sig], ex)
+	}
 	var as []string
 	for _, a := range p.Args {
 		if t, ok := infArgText[a]; ok {
@@ -75,10 +105,19 @@ func (p infPoint) text() string {
 	if len(p.Expl) > 0 {
 		ex = "[" + strings.Join(p.Expl, ", ") + "]"
 	}
-	return fmt.Sprintf("ov.%s%s(%s)", infNames[p.Sig], ex, strings.Join(as, ", "))
+	ell := ""
+	if p.Ell {
+		ell = "..."
+	}
+	return fmt.Sprintf("ov.%s%s(%s%s)", infNames[p.Sig], ex, strings.Join(as, ", "), ell)
 }
 
-func (p infPoint) want() string { return "func(" + strings.Join(p.TArgs, ", ") + ")" }
+func (p infPoint) want() string {
+	if p.Kind == "fv" {
+		return strings.Join(p.TArgs, ", ")
+	}
+	return "func(" + strings.Join(p.TArgs, ", ") + ")"
+}
 
 // class of a point for finding keys: signature + explicit prefix length + argument classes
 func (p infPoint) class() string {
@@ -95,7 +134,14 @@ func (p infPoint) class() string {
 			cs = append(cs, "typed")
 		}
 	}
-	return fmt.Sprintf("%s/explicit=%d/(%s)", infNames[p.Sig], len(p.Expl), strings.Join(cs, ","))
+	if p.Kind == "fv" {
+		return fmt.Sprintf("function-value/%s/explicit=%d/%s", infFvNames[p.Sig], len(p.Expl), p.Target)
+	}
+	ell := ""
+	if p.Ell {
+		ell = "..."
+	}
+	return fmt.Sprintf("%s/explicit=%d/(%s%s)", infNames[p.Sig], len(p.Expl), strings.Join(cs, ","), ell)
 }
 
 type infT struct {
@@ -108,8 +154,12 @@ func infReference(ovPkg *types.Package, base types.Importer, pts []infPoint) ([]
 	var b strings.Builder
 	b.WriteString("package q\nimport \"ov\"\n" + infVars + "func body() {\n")
 	first := strings.Count(b.String(), "\n") + 1
-	for _, p := range pts {
-		fmt.Fprintf(&b, "_ = %s\n", p.text())
+	for i, p := range pts {
+		if p.Kind == "fv" {
+			fmt.Fprintf(&b, "var x%d %s = %s; _ = x%d\n", i, p.Target, strings.TrimSuffix(strings.TrimPrefix(p.text(), p.Target+"("), ")"), i)
+		} else {
+			fmt.Fprintf(&b, "_ = %s\n", p.text())
+		}
 	}
 	b.WriteString("}\n")
 	fset := token.NewFileSet()
@@ -118,7 +168,7 @@ func infReference(ovPkg *types.Package, base types.Importer, pts []infPoint) ([]
 		return nil, fmt.Errorf("reference does not parse: %v", err)
 	}
 	bad := map[int]string{}
-	info := &types.Info{Types: map[ast.Expr]types.TypeAndValue{}}
+	info := &types.Info{Types: map[ast.Expr]types.TypeAndValue{}, Instances: map[*ast.Ident]types.Instance{}}
 	conf := types.Config{Importer: ovImporter{ovPkg, base}, Error: func(e error) {
 		if te, ok := e.(types.Error); ok {
 			ln := fset.Position(te.Pos).Line
@@ -128,28 +178,47 @@ func infReference(ovPkg *types.Package, base types.Importer, pts []infPoint) ([]
 		}
 	}}
 	conf.Check("q", fset, []*ast.File{f}, info)
-	body := f.Decls[len(f.Decls)-1].(*ast.FuncDecl).Body.List
-	if len(body) != len(pts) {
-		return nil, fmt.Errorf("reference: %d statements for %d points", len(body), len(pts))
+	// instances by line
+	instByLine := map[int]string{}
+	for id, inst := range info.Instances {
+		var ts []string
+		for i := 0; i < inst.TypeArgs.Len(); i++ {
+			ts = append(ts, types.TypeString(inst.TypeArgs.At(i), func(p *types.Package) string { return p.Name() }))
+		}
+		instByLine[fset.Position(id.Pos()).Line] = strings.Join(ts, ", ")
 	}
+	body := f.Decls[len(f.Decls)-1].(*ast.FuncDecl).Body.List
 	out := make([]infT, len(pts))
-	for i := range pts {
+	si := 0
+	for i, p := range pts {
 		msg, isBad := bad[first+i]
 		out[i] = infT{ok: !isBad, msg: msg}
+		if p.Kind == "fv" {
+			si += 2 // declaration + blank assignment
+			if !isBad {
+				out[i].res = instByLine[first+i]
+			}
+			continue
+		}
+		if si >= len(body) {
+			return nil, fmt.Errorf("reference: statements and points out of step")
+		}
 		if !isBad {
-			if tv, ok := info.Types[body[i].(*ast.AssignStmt).Rhs[0]]; ok {
+			if tv, ok := info.Types[body[si].(*ast.AssignStmt).Rhs[0]]; ok {
 				out[i].res = types.TypeString(tv.Type, func(p *types.Package) string { return p.Name() })
 			}
 		}
+		si++
 	}
 	return out, nil
 }
 
 type infWorld struct {
-	pkg  *gogen.Package
-	ov   gogen.PkgRef
-	errs []string
-	fn   *gogen.Func
+	nbody int
+	pkg   *gogen.Package
+	ov    gogen.PkgRef
+	errs  []string
+	fn    *gogen.Func
 }
 
 func newInfWorld(ovPkg *types.Package, base types.Importer) *infWorld {
@@ -200,11 +269,15 @@ type infG struct {
 	fault    string
 }
 
-func (w *infWorld) call(p infPoint) (g infG) {
+var infXgox = map[int]string{15: "XCollect", 16: "XCast", 17: "XMk"}
+
+// call builds the call; real = "" (F[explicit...](args)) or "xgox" (the type-as-parameter form XF(explicit..., args))
+func (w *infWorld) call(p infPoint, real string) (g infG) {
 	pkg := w.pkg
 	w.errs = nil
 	if w.fn == nil {
-		w.fn = pkg.NewFunc(nil, "body", nil, nil, false)
+		w.nbody++
+		w.fn = pkg.NewFunc(nil, fmt.Sprintf("body%d", w.nbody), nil, nil, false)
 		w.fn.BodyStart(pkg)
 	}
 	cb := pkg.CB()
@@ -219,12 +292,21 @@ func (w *infWorld) call(p infPoint) (g infG) {
 		}
 	}()
 	ref := func(name string) types.Object { return pkg.Types.Scope().Lookup(name) }
-	cb.Val(w.ov.Ref(infNames[p.Sig]))
-	if len(p.Expl) > 0 {
+	nlead := 0
+	if real == "xgox" {
+		cb.Val(w.ov.Ref(infXgox[p.Sig]))
 		for _, t := range p.Expl {
 			cb.Typ(w.explType(t))
 		}
-		cb.Index(len(p.Expl), 0)
+		nlead = len(p.Expl)
+	} else {
+		cb.Val(w.ov.Ref(infNames[p.Sig]))
+		if len(p.Expl) > 0 {
+			for _, t := range p.Expl {
+				cb.Typ(w.explType(t))
+			}
+			cb.Index(len(p.Expl), 0)
+		}
 	}
 	for _, a := range p.Args {
 		switch a {
@@ -240,7 +322,11 @@ func (w *infWorld) call(p infPoint) (g infG) {
 			cb.Val(ref(a))
 		}
 	}
-	cb.Call(len(p.Args))
+	var flags gogen.InstrFlags
+	if p.Ell {
+		flags = gogen.InstrFlagEllipsis
+	}
+	cb.CallWith(nlead+len(p.Args), 0, flags)
 	e := cb.InternalStack().Pop()
 	cb.ResetStmt()
 	if len(w.errs) > 0 {
@@ -252,6 +338,65 @@ func (w *infWorld) call(p infPoint) (g infG) {
 	}
 	if x, ok := e.Val.(ast.Expr); ok {
 		g.expr = types.ExprString(x)
+	}
+	return g
+}
+
+// target function types of the function-value points
+func (w *infWorld) targetType(s string) types.Type {
+	ti, ts := types.Typ[types.Int], types.Typ[types.String]
+	par := func(t types.Type) *types.Var { return types.NewParam(token.NoPos, nil, "", t) }
+	fn := func(r types.Type, ps ...types.Type) types.Type {
+		var pv []*types.Var
+		for _, t := range ps {
+			pv = append(pv, par(t))
+		}
+		return types.NewSignatureType(nil, nil, nil, types.NewTuple(pv...), types.NewTuple(par(r)), false)
+	}
+	switch s {
+	case "func(int) string":
+		return fn(ts, ti)
+	case "func(int) int":
+		return fn(ti, ti)
+	case "func(string) int":
+		return fn(ti, ts)
+	case "func(int, string) string":
+		return fn(ts, ti, ts)
+	case "func([]int) int":
+		return fn(ti, types.NewSlice(ti))
+	case "func([]string) string":
+		return fn(ts, types.NewSlice(ts))
+	case "func(ov.MySl) int":
+		return fn(ti, w.ov.Ref("MySl").Type())
+	}
+	panic("harness: target type " + s)
+}
+
+// funcValue declares  var <name> <target> = ov.F[explicit...]  at package level
+func (w *infWorld) funcValue(p infPoint, name string) (g infG) {
+	pkg := w.pkg
+	w.errs = nil
+	defer func() {
+		if e := recover(); e != nil {
+			g.rejected = true
+			g.msg = fmt.Sprint(e)
+			if _, rt := e.(interface{ RuntimeError() }); rt {
+				g.fault = g.msg
+			}
+			pkg.CB().ResetStmt()
+		}
+	}()
+	cb := pkg.NewVarStart(token.NoPos, w.targetType(p.Target), name)
+	cb.Val(w.ov.Ref(infFvNames[p.Sig]))
+	if len(p.Expl) > 0 {
+		for _, t := range p.Expl {
+			cb.Typ(w.explType(t))
+		}
+		cb.Index(len(p.Expl), 0)
+	}
+	cb.EndInit(1)
+	if len(w.errs) > 0 {
+		g.rejected, g.msg = true, strings.Join(w.errs, "; ")
 	}
 	return g
 }
@@ -270,11 +415,11 @@ func runC07(tier, replay string) {
 		states, transitions = 1, 1
 	} else {
 		forms := `{"vi","vf","vs","vmy","vsl","vmysl","vslf","vm","vpi","vfis","vfii","c1","c15","cs","nil"}`
-		cfgs := []string{fmt.Sprintf("INIT Init\nNEXT Next\nCONSTANTS\n  SigIds = {1,2,3,4,5,6,7,8,9,10,11,12,13,14}\n  Forms = %s\n  ExplNames = {\"int\",\"float64\",\"MySl\"}\n  MaxExpl = 1\n  MaxVariadic = 2\nINVARIANTS ExplicitRespected InferredSatisfies Symmetric Emit\nCHECK_DEADLOCK FALSE\n", forms)}
+		cfgs := []string{fmt.Sprintf("INIT Init\nNEXT Next\nCONSTANTS\n  SigIds = {1,2,3,4,5,6,7,8,9,10,11,12,13,14,15,16,17}\n  Forms = %s\n  ExplNames = {\"int\",\"float64\",\"MySl\"}\n  MaxExpl = 1\n  MaxVariadic = 2\n  FvSigs = {1,2,3,4,5}\nINVARIANTS ExplicitRespected InferredSatisfies Symmetric Emit\nCHECK_DEADLOCK FALSE\n", forms)}
 		if tier == "thorough" {
 			cfgs = append(cfgs,
-				fmt.Sprintf("INIT Init\nNEXT Next\nCONSTANTS\n  SigIds = {4,5,7,8,9,14}\n  Forms = %s\n  ExplNames = {\"int\",\"float64\",\"string\",\"MyInt\",\"MySl\",\"[]int\"}\n  MaxExpl = 2\n  MaxVariadic = 0\nINVARIANTS ExplicitRespected InferredSatisfies Symmetric Emit\nCHECK_DEADLOCK FALSE\n", forms),
-				fmt.Sprintf("INIT Init\nNEXT Next\nCONSTANTS\n  SigIds = {3,11}\n  Forms = %s\n  ExplNames = {\"int\",\"float64\",\"MyInt\"}\n  MaxExpl = 1\n  MaxVariadic = 3\nINVARIANTS ExplicitRespected InferredSatisfies Symmetric Emit\nCHECK_DEADLOCK FALSE\n", `{"vi","vf","vmy","vsl","vmysl","c1","c15","cs","nil"}`))
+				fmt.Sprintf("INIT Init\nNEXT Next\nCONSTANTS\n  SigIds = {4,5,7,8,9,14,16,17}\n  Forms = %s\n  ExplNames = {\"int\",\"float64\",\"string\",\"MyInt\",\"MySl\",\"[]int\"}\n  MaxExpl = 2\n  MaxVariadic = 0\n  FvSigs = {1,2,3,4,5}\nINVARIANTS ExplicitRespected InferredSatisfies Symmetric Emit\nCHECK_DEADLOCK FALSE\n", forms),
+				fmt.Sprintf("INIT Init\nNEXT Next\nCONSTANTS\n  SigIds = {3,11,15}\n  Forms = %s\n  ExplNames = {\"int\",\"float64\",\"MyInt\"}\n  MaxExpl = 2\n  MaxVariadic = 3\n  FvSigs = {}\nINVARIANTS ExplicitRespected InferredSatisfies Symmetric Emit\nCHECK_DEADLOCK FALSE\n", `{"vi","vf","vmy","vsl","vmysl","c1","c15","cs","nil"}`))
 		}
 		seen := map[string]bool{}
 		for ci, cfg := range cfgs {
@@ -345,19 +490,71 @@ func runC07(tier, replay string) {
 		initMu.Lock()
 		w := newInfWorld(gogenPkg, base)
 		initMu.Unlock()
-		for _, p := range batches[bi] {
-			g := w.call(p)
-			run.Eval(p.text())
+		judge := func(p infPoint, g infG, real string) {
+			run.Eval(real + p.text())
+			pk := p
+			pk.Real = real
+			desc := p.text()
+			if real != "" {
+				desc += " [as type-as-parameter function ov." + infXgox[p.Sig] + "]"
+			}
 			switch {
 			case g.fault != "":
-				run.Fail("fault/"+p.class(), fmt.Sprintf("%s: %s", p.text(), g.fault), p)
+				run.Fail("fault/"+real+p.class(), fmt.Sprintf("%s: %s", desc, g.fault), pk)
 				w.fn = nil
 			case p.Ok && g.rejected:
-				run.Fail("rejected-although-go-infers/"+p.class(), fmt.Sprintf("%s: Go infers %s; the builder reports: %s", p.text(), p.want(), firstLines(g.msg, 2)), p)
+				run.Fail("rejected-although-go-infers/"+real+p.class(), fmt.Sprintf("%s: Go infers %s; the builder reports: %s", desc, p.want(), firstLines(g.msg, 2)), pk)
 			case !p.Ok && !g.rejected:
-				run.Fail("accepted-although-go-rejects/"+p.class(), fmt.Sprintf("%s: Go rejects the call (%s); the builder emits %s of type %s", p.text(), tref0(tref, pts, p), g.expr, g.res), p)
-			case p.Ok && g.res != p.want():
-				run.Fail("instantiated-signature-differs/"+p.class(), fmt.Sprintf("%s: Go instantiates %s; the builder reports %s", p.text(), p.want(), g.res), p)
+				run.Fail("accepted-although-go-rejects/"+real+p.class(), fmt.Sprintf("%s: Go rejects it (%s); the builder emits %s of type %s", desc, tref0(tref, pts, p), g.expr, g.res), pk)
+			case p.Ok && p.Kind != "fv" && g.res != p.want():
+				run.Fail("instantiated-signature-differs/"+real+p.class(), fmt.Sprintf("%s: Go instantiates %s; the builder reports %s", desc, p.want(), g.res), pk)
+			}
+		}
+		for _, p := range batches[bi] {
+			if p.Kind == "fv" {
+				// a rejected initialiser leaves the declaration half built: every function-value point gets its own package
+				initMu.Lock()
+				w2 := newInfWorld(gogenPkg, base)
+				initMu.Unlock()
+				g := w2.funcValue(p, "fv")
+				judge(p, g, "")
+				if g.rejected || g.fault != "" || !p.Ok {
+					continue
+				}
+				// the instantiation in the emitted declaration, as go/types sees it
+				var out bytes.Buffer
+				if err := w2.pkg.WriteTo(&out); err != nil {
+					run.Fail("write-fails", err.Error(), p)
+					continue
+				}
+				fset := token.NewFileSet()
+				f, err := parser.ParseFile(fset, "o.go", out.Bytes(), 0)
+				if err != nil {
+					run.Fail("emitted-code-does-not-parse", stripPos(err.Error()), p)
+					continue
+				}
+				info := &types.Info{Instances: map[*ast.Ident]types.Instance{}}
+				var terrs []string
+				conf := types.Config{Importer: ovImporter{refPkg, base}, Error: func(e error) { terrs = append(terrs, e.Error()) }}
+				conf.Check("p", fset, []*ast.File{f}, info)
+				got := "<none>"
+				for _, in := range info.Instances {
+					var ts []string
+					for i := 0; i < in.TypeArgs.Len(); i++ {
+						ts = append(ts, types.TypeString(in.TypeArgs.At(i), func(p *types.Package) string { return p.Name() }))
+					}
+					got = strings.Join(ts, ", ")
+				}
+				if got != p.want() || len(terrs) > 0 {
+					run.Fail("instantiated-signature-differs/"+p.class(), fmt.Sprintf("%s: Go instantiates [%s]; in the emitted declaration go/types finds [%s] %v", p.text(), p.want(), got, firstLines(strings.Join(terrs, "; "), 1)), p)
+				}
+				continue
+			}
+			if p.Real != "xgox" {
+				judge(p, w.call(p, ""), "")
+			}
+			if _, ok := infXgox[p.Sig]; ok && (p.Real == "" || p.Real == "xgox") {
+				judge(p, w.call(p, "xgox"), "xgox")
 			}
 		}
 	})
